@@ -12,7 +12,8 @@ TECH = ("symbolic execution of the real library code with CrossHair 0.0.110 (z3 
 
 CLAIMS = {
     "C01": {
-        "text": "Bounded symbolic check (CrossHair/z3 on the real SyncInterpreter/Interpreter code): one transition from every legal, publicly reachable (configuration, history) pair of each skeleton machine, with symbolic source/target/reenter and free target strings, preserves the five legality clauses at every observation point; start() and snapshot/restore too; a transition that aborts in the middle of its entry or exit phase (symbolic victim state with an unimplemented action) leaves a legal configuration equal to the one before. An inductive step, so event histories of any length over the covered transition kinds are covered; machines are the enumerated skeleton family, not all machines.",
+        "tech": TECH + "; obligation descendant_smt: AST-to-SMT symbolic execution of _is_descendant on unbounded z3 strings (z3 5.1, cvc5 1.0.3 on z3's unknowns), models replayed natively",
+        "text": "Bounded symbolic check (CrossHair/z3 on the real SyncInterpreter/Interpreter code): one transition from every legal, publicly reachable (configuration, history) pair of each skeleton machine, with symbolic source/target/reenter and free target strings, preserves the five legality clauses at every observation point; start() and snapshot/restore too; a transition that aborts in the middle of its entry or exit phase (symbolic victim state with an unimplemented action) leaves a legal configuration equal to the one before. An inductive step, so event histories of any length over the covered transition kinds are covered; machines are the enumerated skeleton family, not all machines. descendant_smt: the AST of BaseInterpreter._is_descendant executed on z3 string terms (vf/ast2smt.py, z3 + cvc5): on a 7-node tree with a machine id and state keys of ANY length (non-empty, dot-free, siblings distinct) all 49 (node, ancestor) answers equal tree ancestry.",
         "note": "Trusts CrossHair's path exhaustion + z3, the short legality oracle (vf/model.py), the stubs (null logger, pinned StateNode hash, virtual-time loop). Pre-states: arbitrary legal configuration x history assignments reachable by public send() over a driver alphabet. Outside: machines beyond the skeleton family (curated CUR1-9 + generated trees <=4/5 nodes), services/timers during the step, multi-target transitions.",
         "design": "DESIGN.md section 4 C01",
     },
@@ -72,7 +73,7 @@ CLAIMS = {
         "design": "DESIGN.md section 4 C14",
     },
     "C10": {
-        "text": "Bounded symbolic check: one event from every stable configuration of a completion machine (3-region parallel state with history child, nested compound with its own onDone, targetless parallel onDone; also a variant with prefix-named regions) and symbolic event sequences from start(): onDone fires exactly when the independently recomputed doneness rises, never while a region is not final, done data = final state's output; top-level final: status done once, on_done once, machine-level output precedence (4 variants incl. falsy), later sends are no-ops, stop() still works; a final state nested below the root (1-2 levels, or in every region) without onDone ancestors does not complete the machine; an id-less invoke on a compound with onDone never triggers that onDone; one event / one batch entering two top-level final states completes the machine once (on_done hook once, output not overwritten). Both engines.",
+        "text": "Bounded symbolic check: one event from every stable configuration of a completion machine (3-region parallel state with history child, nested compound with its own onDone, targetless parallel onDone; also a variant with prefix-named regions) and symbolic event sequences from start(): onDone fires exactly when the independently recomputed doneness rises, never while a region is not final, done data = final state's output; top-level final: status done once, on_done once, machine-level output precedence (4 variants incl. falsy), later sends are no-ops, stop() still works; a final state nested below the root (1-2 levels, or in every region) without onDone ancestors does not complete the machine; an id-less invoke on a compound with onDone never triggers that onDone; one event / one batch entering two top-level final states completes the machine once (on_done hook once, output not overwritten). Both engines. same_key_parallel: three parallel states sharing one local key; each onDone fires exactly when its own doneness rises.",
         "note": "Trusts CrossHair/z3 and done_ref in harness/c10.py. One fixed machine family (DM, DM2, TOP0-3), sequences <= 3 (quick) / 4; release of timers/services/actors by stop() after completion is C14's subject.",
         "design": "DESIGN.md section 4 C10",
     },
@@ -87,7 +88,7 @@ CLAIMS = {
         "design": "DESIGN.md section 4 C18",
     },
     "C15": {
-        "text": "Bounded symbolic check under a virtual clock: symbolic sequences of 19 actor operations (4 spawn forms incl. id re-use, generated ids and a non-blocking spawn; sendTo with a symbolic addressing form out of 8; two delayed sends with ids; cancel; stopChild; forwardTo; child->parent sendParent / id-less delayed sendParent / escalate; grandchild spawn with its own systemId and a grandchild->parent reply addressed by systemId; child completion; time; stop) on a parent machine with children and a grandchild, both engines: after every operation the children map and the system registry equal a reference registry, every message is delivered exactly once to exactly the actor the documented lookup order of _resolve_actor_target names (or nobody when unresolvable / ambiguous / stopped), in sending order per receiver; cancel removes that send only; after stopChild / stop() no descendant is running, registered or ticking and the parent hears nothing from stopped children.",
+        "text": "Bounded symbolic check under a virtual clock: symbolic sequences of 19 actor operations (4 spawn forms incl. id re-use, generated ids and a non-blocking spawn; sendTo with a symbolic addressing form out of 8; two delayed sends with ids; cancel; stopChild; forwardTo; child->parent sendParent / id-less delayed sendParent / escalate; grandchild spawn with its own systemId and a grandchild->parent reply addressed by systemId; child completion; time; stop) on a parent machine with children and a grandchild, both engines: after every operation the children map and the system registry equal a reference registry, every message is delivered exactly once to exactly the actor the documented lookup order of _resolve_actor_target names (or nobody when unresolvable / ambiguous / stopped), in sending order per receiver; cancel removes that send only; after stopChild / stop() no descendant is running, registered or ticking and the parent hears nothing from stopped children. Quick items that send by bare service key, change the population of that service's children (spawn / stop / finish) and send again.",
         "note": "Trusts CrossHair/z3, the reference registry in harness/c15.py and the virtual-time stubs (sync polling runner = baton-passing coroutine on an OS thread). One machine family (PM/kid/gkid), sequences of 3-4 (quick) or 4-5 (thorough) operations, depth 2, fan-out <= 4. Under-specified cases (service-key fallback with several explicit-id children; finished child) are accepted either way.",
         "design": "DESIGN.md section 4 C15",
     },
@@ -155,7 +156,7 @@ def main() -> int:
         }, {
             "name": "ast2smt",
             "path": "/verif/vf/ast2smt.py",
-            "serves_properties": ["C20"],
+            "serves_properties": ["C01", "C20"],
             "kind_free_text": "symbolic interpreter from the Python AST of a leaf kernel (inspect.getsource on /repo's working tree) to z3 terms over unbounded strings; DFS over solver-decided branches; z3 5.1 Python API first, cvc5 1.0.3 binary on the same SMT-LIB text when z3 answers unknown; models replayed natively",
         }],
         "checks": checks,
